@@ -202,6 +202,23 @@ def run(chk):
             if prob is None and c._snapshot() != snap:
                 prob = {"problem": "argument modified"}
         chk.ob("C15.W.roundtrip", f"write::{name}", prob is None, file=FILE, func="circuit_to_bench", line=fw.node.lineno, fact=prob or {"lines": len(text.splitlines())}, expect="same inputs, outputs and output functions after reading back")
+    from ..stale import circuit_snapshot, stale_state_rule
+    from ..minieval import ModelRaise as _MR
+
+    def _mk_call(file_, fname_, *extra):
+        def _call(c):
+            r = P.call(file_, fname_, c, *extra)
+            if r[0] != "return":
+                raise _MR(r[1], r[2] if len(r) > 2 else "")
+            return r[1]
+        return _call
+
+    stale_state_rule(chk, "C15.H.no-stale-state", _mk_call(FILE, "circuit_to_bench"), str, FILE, "circuit_to_bench")
+    # a rejected text must not influence the next read
+    rb = P.call(FILE, "bench_to_circuit", "INPUT(a)\nOUTPUT(o)\no = AND(a, a2)\na2 = DFF(o)\nx = NOT(", "bad")
+    rg = P.call(FILE, "bench_to_circuit", "INPUT(a)\nINPUT(b)\nOUTPUT(o)\no = NOR(a, b)\n", "good")
+    ok = rg[0] == "return" and rg[1].inputs() == {"a", "b"} and rg[1].outputs() == {"o"} and set(rg[1].nodes()) == {"a", "b", "o"} and not rg[1].blackboxes
+    chk.ob("C15.H.no-state-between-reads", "bench_to_circuit::second read after another text", ok, file=FILE, func="bench_to_circuit", fact={"nodes": sorted(rg[1].nodes()) if rg[0] == "return" else str(rg)[:100]}, expect="only the nets of the second text")
     bb = RefBlackBox("ff", ["d"], ["q"])
     cbb = build({"a": ("input", []), "u.d": ("bb_input", ["a"]), "u.q": ("bb_output", []), "w": ("buf", ["u.q"])}, outputs=["w"], blackboxes={"u": bb})
     r = P.call(FILE, "circuit_to_bench", cbb)
